@@ -128,6 +128,24 @@ Lemma utopo_head_unreached i P j : utopo (i :: P) -> In j P -> ~ reaches j i.
 Proof. intros Hu Hj [k Hk]. inversion Hu as [|x Q Hu' Hv Hn Hd]; subst.
   apply Hn. apply utopo_closed_iter; auto. Qed.
 
+(* no cycles among the ordered cells *)
+Lemma utopo_acyclic P i k : utopo P -> In i P -> iter (S k) i = i -> dsf i = i.
+Proof.
+  intros Hu; revert i. induction Hu as [|x P Hu IH Hv Hn Hd]; intros i Hi Hk; [destruct Hi|].
+  destruct Hi as [<-|Hi]; [|apply IH; auto].
+  destruct Hd as [Hd|Hd]; auto.
+  exfalso. apply Hn. simpl in Hk. rewrite <- Hk. apply utopo_closed_iter; auto.
+Qed.
+
+Lemma topo_acyclic s i k : topo s -> In i s -> iter (S k) i = i -> dsf i = i.
+Proof. intros Ht Hi. apply (utopo_acyclic (rev s)); [apply topo_utopo; auto|rewrite <- in_rev; auto]. Qed.
+
+Lemma topo_closed s i : topo s -> In i s -> In (dsf i) s.
+Proof. intros Ht Hi. rewrite in_rev. apply utopo_closed; [apply topo_utopo; auto|rewrite <- in_rev; auto]. Qed.
+
+Lemma topo_closed_iter s i k : topo s -> In i s -> In (iter k i) s.
+Proof. intros Ht Hi. rewrite in_rev. apply utopo_closed_iter; [apply topo_utopo; auto|rewrite <- in_rev; auto]. Qed.
+
 Lemma topo_valid s i : topo s -> In i s -> valid i.
 Proof. intros Ht Hi. apply (utopo_valid (rev s)); [apply topo_utopo; auto|].
   rewrite <- in_rev; auto. Qed.
